@@ -24,6 +24,7 @@ pub static C15: Scenario = Scenario {
     gen: |c, i| gen(c, i, "C15"),
     judge: |run, obs| oracle::judge("C15", run, obs),
     assumptions: &["expectation keys and validator keys are kept disjoint, except for the known finding (check_claim(exp|nbf) on PasetoParser::default()) which is exercised in a dedicated slice of runs"],
+    exhaustive: &[],
 };
 
 pub static C16: Scenario = Scenario {
@@ -37,6 +38,7 @@ pub static C16: Scenario = Scenario {
     gen: |c, i| gen(c, i, "C16"),
     judge: |run, obs| oracle::judge("C16", run, obs),
     assumptions: &["early exit at the first failing validator is allowed; which one is first is decided by the simulated hash seed"],
+    exhaustive: &[],
 };
 
 fn scalar(r: &mut Rng) -> Value {
